@@ -26,9 +26,9 @@ Proof. exact error_not_early. Qed.
 Print Assumptions C12_error_not_early.
 
 (* Parser SOUNDNESS: whatever strict mode accepts without reporting an error is a program of
-   the relaxed grammar of GrammarLax.v - the ECMAScript grammar of the subset plus six
+   the relaxed grammar of GrammarLax.v - the ECMAScript grammar of the subset plus five
    explicit, recorded relaxations (non-simple assignment targets, non-identifier member
-   names, parameters and object keys, declarations as single statements, postfix
+   names and object keys, declarations as single statements, postfix
    expressions as callees).  So a corrupted text that is not in that grammar is never
    accepted silently.  (The token list has no end-of-input token before its last one.) *)
 Theorem C12_sound : forall toks r,
